@@ -25,7 +25,7 @@ impl Engine for E {
         match prop {
             "C05" => {
                 let n = c05_gen::registry().len() as u64;
-                p.cases = if quick { n * 6 } else { n * 110 };
+                p.cases = if quick { n * 3 } else { n * 60 };
                 p.timeout_s = if quick { 600 } else { 3600 };
                 p.isolated_timeout_s = 120;
                 p.san = vec![SanTier { name: "nodebug", shards: 16, cases: if quick { n } else { n * 12 }, timeout_s: if quick { 600 } else { 3600 }, budget_s: 0 }];
